@@ -8,9 +8,22 @@
 #include "Template.hpp"
 
 using namespace Qentem;
-using V  = Value<char>;
-using St = String<char>;
-using SV = StringView<char>;
+// character width: -DVERIF_CHAR=char16_t / char32_t builds the same driver for the wide instances
+#ifndef VERIF_CHAR
+#define VERIF_CHAR char
+#endif
+using Ch  = VERIF_CHAR;
+using UCh = std::make_unsigned<Ch>::type;
+using Str = std::basic_string<Ch>;
+using V   = Value<Ch>;
+using St  = String<Ch>;
+using SV  = StringView<Ch>;
+
+static Str W(const char *ascii) {
+    Str r;
+    for (const char *p = ascii; *p; ++p) r.push_back(static_cast<Ch>(static_cast<unsigned char>(*p)));
+    return r;
+}
 
 static V *POOL = nullptr;
 
@@ -25,17 +38,17 @@ struct Cur {
     }
     long long           ll() { return std::strtoll(next().c_str(), nullptr, 10); }
     unsigned long long  ull() { return std::strtoull(next().c_str(), nullptr, 10); }
-    std::string         str() {
-        long long   n = ll();
-        std::string s;
-        for (long long k = 0; k < n; k++) s.push_back(static_cast<char>(static_cast<unsigned char>(ull())));
+    Str                 str() {
+        long long n = ll();
+        Str       s;
+        for (long long k = 0; k < n; k++) s.push_back(static_cast<Ch>(static_cast<UCh>(ull())));
         return s;
     }
 };
 
-struct Step { bool key; std::string k; unsigned idx; };
+struct Step { bool key; Str k; unsigned idx; };
 struct Target { unsigned var; std::vector<Step> path; };
-struct Scal { int kind = 7; unsigned long long u = 0; long long i = 0; long long q = 0; std::string s; };
+struct Scal { int kind = 7; unsigned long long u = 0; long long i = 0; long long q = 0; Str s; };
 
 static Target rd_target(Cur &c) {
     Target t; t.var = static_cast<unsigned>(c.ll());
@@ -86,14 +99,14 @@ static V *resolve(V *vars, const Target &t) {
     return cur;
 }
 
-static bool has_nul(const std::string &s) { return s.find('\0') != std::string::npos; }
+static bool has_nul(const Str &s) { return s.find(static_cast<Ch>(0)) != Str::npos; }
 
 // dst = payload through one of the assignment overloads
 static void assign(V &dst, const Scal &p, long long v) {
     switch (p.kind) {
-        case 0: dst = nullptr; break;
-        case 1: dst = true; break;
-        case 2: dst = false; break;
+        case 0: if (v & 1) { V tmp{nullptr}; dst = Memory::Move(tmp); } else dst = nullptr; break;
+        case 1: if (v & 1) { V tmp{true}; dst = Memory::Move(tmp); } else dst = true; break;
+        case 2: if (v & 1) { V tmp{false}; dst = Memory::Move(tmp); } else dst = false; break;
         case 3: if ((v & 1) && p.u < 4000000000ULL) dst = static_cast<unsigned int>(p.u); else dst = static_cast<SizeT64>(p.u); break;
         case 4: if ((v & 1) && p.i > -2000000000LL && p.i < 2000000000LL) dst = static_cast<int>(p.i); else dst = static_cast<SizeT64I>(p.i); break;
         case 5: {
@@ -102,9 +115,14 @@ static void assign(V &dst, const Scal &p, long long v) {
             break;
         }
         case 6: {
-            long long w = v % 5;
+            long long w = v % 10;
             if (w == 3 && has_nul(p.s)) w = 2;
-            if (w == 0) { dst = St(p.s.c_str(), static_cast<SizeT>(p.s.size())); }
+            if (w == 5) { V tmp{p.s.c_str(), static_cast<SizeT>(p.s.size())}; dst = Memory::Move(tmp); }
+            else if (w == 6) { V tmp{SV(p.s.c_str(), static_cast<SizeT>(p.s.size()))}; dst = Memory::Move(tmp); }
+            else if (w == 7) { V tmp{St(p.s.c_str(), static_cast<SizeT>(p.s.size()))}; dst = Memory::Move(tmp); }
+            else if (w == 8) { const St s(p.s.c_str(), static_cast<SizeT>(p.s.size())); V tmp{s}; dst = Memory::Move(tmp); }
+            else if (w == 9) { St s(p.s.c_str(), static_cast<SizeT>(p.s.size())); St *ps = &s; dst = ps; }
+            else if (w == 0) { dst = St(p.s.c_str(), static_cast<SizeT>(p.s.size())); }
             else if (w == 1) { const St s(p.s.c_str(), static_cast<SizeT>(p.s.size())); dst = s; }
             else if (w == 2) { dst = SV(p.s.c_str(), static_cast<SizeT>(p.s.size())); }
             else if (w == 3) { dst = p.s.c_str(); }
@@ -135,9 +153,9 @@ static void append(V &dst, const Scal &p, long long v) {
     }
 }
 
-static void units(const char *p, size_t n, std::string &o) {
+static void units(const Ch *p, size_t n, std::string &o) {
     o += '(';
-    for (size_t i = 0; i < n; i++) { o += std::to_string(static_cast<unsigned>(static_cast<unsigned char>(p[i]))); o += '.'; }
+    for (size_t i = 0; i < n; i++) { o += std::to_string(static_cast<unsigned long>(static_cast<UCh>(p[i]))); o += '.'; }
     o += ')';
 }
 static std::string quarters(double d) {
@@ -160,7 +178,7 @@ static void dump(const V &v, std::string &o, int depth = 0) {
     if (v.IsDouble()) { o += 'r'; o += quarters(v.GetDouble()); return; }
     if (v.IsString()) {
         o += 's';
-        const char *p = v.StringStorage();
+        const Ch   *p = v.StringStorage();
         SizeT       n = v.Length();
         units(p, n, o);
         const St *s = v.GetString();
@@ -172,6 +190,11 @@ static void dump(const V &v, std::string &o, int depth = 0) {
     if (v.IsArray()) {
         o += '[';
         SizeT n = v.Size();
+        {
+            const typename V::ArrayT *ap = v.GetArray();
+            if (ap == nullptr || ap->Size() != n || v.First() != ap->First() ||
+                ((n != 0) && (v.Last() != ap->Last())) || v.GetObject() != nullptr || v.GetKey(0) != nullptr) o += '!';
+        }
         for (SizeT i = 0; i < n; i++) {
             if (i) o += ',';
             const V *c = v.GetValue(i);
@@ -183,6 +206,11 @@ static void dump(const V &v, std::string &o, int depth = 0) {
     if (v.IsObject()) {
         o += "{#";
         SizeT n = v.Size();
+        {
+            const typename V::ObjectT *op = v.GetObject();
+            if (op == nullptr || op->Size() != n || v.GetArray() != nullptr || v.GetString() != nullptr) o += '!';
+            if (n != 0 && (v.First() != &(op->First()->Value) || v.Last() != &(op->Last()->Value))) o += '!';
+        }
         o += std::to_string(n);
         o += ';';
         bool first = true;
@@ -199,6 +227,23 @@ static void dump(const V &v, std::string &o, int depth = 0) {
             const V *c = v.GetValue(i);
             const V *c2 = v.GetValue(k->First(), k->Length());
             if (c != c2) o += '!';
+            if (v.GetValue(SV(k->First(), k->Length())) != c) o += '!';
+            {
+                const V *c3 = &v;   // any non-null start value
+                SV       kv;
+                v.SetValueAndKey(i, c3, kv);
+                if (c3 != c || (c != nullptr && (kv.First() != k->First() || kv.Length() != k->Length()))) o += '!';
+                const V  *c4 = &v;
+                const Ch *kp = nullptr;
+                SizeT     kl = 0;
+                v.SetValueKeyLength(i, c4, kp, kl);
+                if (c4 != c || (c != nullptr && (kp != k->First() || kl != k->Length()))) o += '!';
+                const Ch *kp2 = nullptr;
+                SizeT     kl2 = 0;
+                if (!v.SetKeyCharAndLength(i, kp2, kl2) || kp2 != k->First() || kl2 != k->Length()) o += '!';
+                StringStream<Ch> ks;
+                if (!v.CopyKeyByIndexTo(ks, i) || ks.Length() != k->Length()) o += '!';
+            }
             if (c == nullptr) o += 'U'; else dump(*c, o, depth + 1);
         }
         o += '}';
@@ -207,16 +252,16 @@ static void dump(const V &v, std::string &o, int depth = 0) {
     o += "!kind";
 }
 
-static bool keep(unsigned char c) { return c >= 33 && c <= 126 && c != '"' && c != '\\' && c != '/' && c != '?'; }
+static bool keep(unsigned long c) { return c >= 33 && c <= 126 && c != '"' && c != '\\' && c != '/' && c != '?'; }
 
 static void skeleton(const V &v, std::string &o) {
-    StringStream<char> ss;
+    StringStream<Ch> ss;
     v.Stringify(ss);
-    const char *p = ss.First();
+    const Ch   *p = ss.First();
     size_t      n = ss.Length();
     bool        in = false;
     for (size_t i = 0; i < n; i++) {
-        unsigned char c = static_cast<unsigned char>(p[i]);
+        unsigned long c = static_cast<unsigned long>(static_cast<UCh>(p[i]));
         if (!in) {
             if (c == '"') in = true;
             o += static_cast<char>(c);
@@ -258,11 +303,11 @@ static void read_value(const V &v, std::string &o) {
     bool b = false;
     o += ";b";
     if (v.SetBool(b)) { o += '1'; o += (b ? '1' : '0'); } else o += "00";
-    const char *p = nullptr;
+    const Ch   *p = nullptr;
     SizeT       len = 0;
     o += ";c";
     if (v.SetCharAndLength(p, len)) units(p, len, o); else o += '-';
-    StringStream<char> ss;
+    StringStream<Ch> ss;
     o += ";t";
     if (v.CopyValueTo(ss)) units(ss.First(), ss.Length(), o); else o += '-';
     o += ";l"; o += std::to_string(v.Length());
@@ -304,7 +349,7 @@ static std::string run_case(const std::string &line) {
             case 0: break;
             case 1: { Target t = rd_target(c); Scal p = rd_scal(c); long long v = c.ll(); V *d = resolve(vars, t); if (!d) { skipped = true; break; } assign(*d, p, v); break; }
             case 2: {
-                Target t = rd_target(c); std::string k = c.str(); Scal p = rd_scal(c); long long v = c.ll();
+                Target t = rd_target(c); Str k = c.str(); Scal p = rd_scal(c); long long v = c.ll();
                 V *d = resolve(vars, t); if (!d) { skipped = true; break; }
                 long long w = v % 6;
                 if (w == 0 && has_nul(k)) w = 1;
@@ -335,14 +380,14 @@ static std::string run_case(const std::string &line) {
                 break;
             }
             case 7: {
-                Target t1 = rd_target(c); std::string k = c.str(); Target t2 = rd_target(c);
+                Target t1 = rd_target(c); Str k = c.str(); Target t2 = rd_target(c);
                 if (related(t1, t2)) { skipped = true; break; }
                 V *d = resolve(vars, t1); V *s = resolve(vars, t2); if (!d || !s) { skipped = true; break; }
                 d->Insert(SV(k.c_str(), static_cast<SizeT>(k.size())), Memory::Move(*s));
                 break;
             }
             case 8: {
-                Target t = rd_target(c); std::string k = c.str(); long long v = c.ll();
+                Target t = rd_target(c); Str k = c.str(); long long v = c.ll();
                 V *d = resolve(vars, t); if (!d) { skipped = true; break; }
                 long long w = v % 3;
                 if (w == 2 && has_nul(k)) w = 0;
@@ -351,7 +396,7 @@ static std::string run_case(const std::string &line) {
                 else d->Remove(k.c_str());
                 break;
             }
-            case 9: { Target t = rd_target(c); unsigned i = static_cast<unsigned>(c.ll()); V *d = resolve(vars, t); if (!d) { skipped = true; break; } d->RemoveIndex(static_cast<SizeT>(i)); break; }
+            case 9: { Target t = rd_target(c); unsigned i = static_cast<unsigned>(c.ll()); V *d = resolve(vars, t); if (!d) { skipped = true; break; } if (i & 1) d->RemoveIndex(static_cast<int>(i)); else d->RemoveIndex(static_cast<SizeT>(i)); break; }
             case 10: { Target t = rd_target(c); V *d = resolve(vars, t); if (!d) { skipped = true; break; } d->Reset(); break; }
             case 11: { Target t = rd_target(c); V *d = resolve(vars, t); if (!d) { skipped = true; break; } d->Compress(); break; }
             case 12: case 13: {
@@ -389,20 +434,58 @@ static std::string run_case(const std::string &line) {
             }
             case 17: { Target t = rd_target(c); V *d = resolve(vars, t); if (!d) { skipped = true; break; } read_value(*d, own); break; }
             case 18: {
-                Target t1 = rd_target(c); Target t2 = rd_target(c); std::string k = c.str();
+                Target t1 = rd_target(c); Target t2 = rd_target(c); Str k = c.str();
                 if (related(t1, t2)) { skipped = true; break; }
                 V *d = resolve(vars, t1); V *s = resolve(vars, t2); if (!d || !s) { skipped = true; break; }
-                bool ok = static_cast<const V *>(s)->GroupBy(*d, k.c_str(), static_cast<SizeT>(k.size()));
+                bool ok = (!has_nul(k) && (k.size() % 2 == 1)) ? static_cast<const V *>(s)->GroupBy(*d, k.c_str())
+                                                              : static_cast<const V *>(s)->GroupBy(*d, k.c_str(), static_cast<SizeT>(k.size()));
                 own += ok ? '1' : '0';
                 break;
             }
             case 19: {
-                Target t = rd_target(c); std::string k = c.str();
+                Target t = rd_target(c); Str k = c.str();
                 V *d = resolve(vars, t); if (!d) { skipped = true; break; }
-                std::string tpl = "<loop value=\"g\" group=\"" + k + "\">{var:g}=<loop set=\"g\" value=\"e\">(<loop set=\"e\" value=\"m\">{var:m};</loop>)</loop>|</loop>";
-                StringStream<char> ss;
+                Str tpl = W("<loop value=\"g\" group=\"") + k + W("\">{var:g}=<loop set=\"g\" value=\"e\">(<loop set=\"e\" value=\"m\">{var:m};</loop>)</loop>|</loop>");
+                StringStream<Ch> ss;
                 Template::Render(tpl.c_str(), static_cast<SizeT>(tpl.size()), *d, ss);
-                for (SizeT i = 0; i < ss.Length(); i++) if (keep(static_cast<unsigned char>(ss.First()[i]))) own += ss.First()[i];
+                for (SizeT i = 0; i < ss.Length(); i++) if (keep(static_cast<unsigned long>(static_cast<UCh>(ss.First()[i])))) own += static_cast<char>(ss.First()[i]);
+                break;
+            }
+            case 20: {
+                Target t = rd_target(c); long long kind = c.ll(); long long v = c.ll();
+                V *d = resolve(vars, t); if (!d) { skipped = true; break; }
+                ValueType ty = static_cast<ValueType>(static_cast<SizeT8>(kind));
+                if (ty == ValueType::ValuePtr) ty = ValueType::Undefined;
+                if (v % 3 == 0) { *d = ty; }
+                else if (v % 3 == 1) { V tmp{ty}; *d = Memory::Move(tmp); }
+                else { V tmp{ty, static_cast<SizeT>(v % 5)}; *d = Memory::Move(tmp); }
+                break;
+            }
+            case 21: case 22: {
+                Target t1 = rd_target(c); Target t2 = rd_target(c); long long v = c.ll();
+                if (related(t1, t2)) { skipped = true; break; }
+                V *d = resolve(vars, t1); V *s = resolve(vars, t2); if (!d || !s) { skipped = true; break; }
+                if (s->Type() == ValueType::Object) {
+                    const typename V::ObjectT &o = *(s->GetObject());
+                    if (code == 21) {
+                        if (v % 4 == 0) { *d = o; }
+                        else if (v % 4 == 1) { typename V::ObjectT tmp{o}; *d = Memory::Move(tmp); }
+                        else if (v % 4 == 2) { V tmpv{o}; *d = Memory::Move(tmpv); }
+                        else { typename V::ObjectT tmp{o}; V tmpv{Memory::Move(tmp)}; *d = Memory::Move(tmpv); }
+                    } else {
+                        if (v % 2 == 0) { *d += o; } else { typename V::ObjectT tmp{o}; *d += Memory::Move(tmp); }
+                    }
+                } else if (s->Type() == ValueType::Array) {
+                    const typename V::ArrayT &a = *(s->GetArray());
+                    if (code == 21) {
+                        if (v % 4 == 0) { *d = a; }
+                        else if (v % 4 == 1) { typename V::ArrayT tmp{a}; *d = Memory::Move(tmp); }
+                        else if (v % 4 == 2) { V tmpv{a}; *d = Memory::Move(tmpv); }
+                        else { typename V::ArrayT tmp{a}; V tmpv{Memory::Move(tmp)}; *d = Memory::Move(tmpv); }
+                    } else {
+                        if (v % 2 == 0) { *d += a; } else { typename V::ArrayT tmp{a}; *d += Memory::Move(tmp); }
+                    }
+                }
                 break;
             }
             default: return "BADOP";
@@ -419,12 +502,12 @@ static std::string run_case(const std::string &line) {
 int main() {
     static V pool[4];
     pool[0] = static_cast<SizeT64>(7);
-    pool[1] = "pq";
+    pool[1] = W("pq").c_str();
     pool[2] += static_cast<SizeT64I>(-2);
-    pool[2] += "x";
+    pool[2] += W("x").c_str();
     pool[2] += nullptr;
-    pool[3]["a"] = static_cast<SizeT64>(1);
-    pool[3]["b"] += true;
+    pool[3][W("a").c_str()] = static_cast<SizeT64>(1);
+    pool[3][W("b").c_str()] += true;
     POOL = pool;
     vf::for_each_line([](const std::string &line) { return run_case(line); });
     return 0;
